@@ -180,6 +180,10 @@ func TestVerifC14Gate(t *testing.T) {
 			hist := append(append([]string{}, h...), c)
 			idx++
 			st, fp, detail, ended := c14Exec(hist)
+			for try := 0; fp == "C14:gate:hang" && try < 2; try++ {
+				// the 20 s last-resort deadline: believed only if it reproduces twice
+				st, fp, detail, ended = c14Exec(hist)
+			}
 			if r.Mine(idx) || true {
 				r.Eval()
 				transitions++
